@@ -1666,7 +1666,12 @@ class Sim:
             h = self.handlers.get(signum, signal.SIG_DFL)
             if callable(h):
                 self.emit("handler", signal.Signals(signum).name, "cb" if self.in_cb else "direct")
-                h(signum, None)
+                # like CPython, hand the handler the frame that was interrupted (the innermost frame that
+                # is not part of the simulator)
+                f = sys._getframe(1)
+                while f is not None and f.f_code.co_filename == __file__:
+                    f = f.f_back
+                h(signum, f)
             elif signum == signal.SIGINT and h == signal.SIG_DFL:
                 raise KeyboardInterrupt()
             # SIGCHLD with default disposition is discarded
